@@ -34,6 +34,7 @@ type vestMachine struct {
 	sendDisabled                                                                bool
 	govOwner                                                                    bool
 	typesRemoved                                                                int
+	manyPools                                                                   int
 	otherKinds                                                                  []sdk.AccAddress // existing accounts of the other vesting kinds
 	rewardAddressSet                                                            int
 	directCliff                                                                 int
@@ -167,6 +168,9 @@ func (m *vestMachine) actCreatePool() {
 	t := m.t
 	owner := m.owner("owner")
 	name := []string{"p0", "p1", "p2", "p3", "p4", ""}[rapid.IntRange(0, 5).Draw(t, "name")]
+	if m.manyPools > 0 && rapid.IntRange(0, 2).Draw(t, "nameOfMany") == 0 {
+		name = fmt.Sprintf("m%d", rapid.IntRange(0, m.manyPools-1).Draw(t, "manyName")) // the name of one of the owner's many pools
+	}
 	vtNames := []string{"missing"}
 	for _, vt := range m.v.VTypes {
 		vtNames = append(vtNames, vt.Name, vt.Name, vt.Name)
@@ -194,6 +198,13 @@ func (m *vestMachine) actCreatePool() {
 	dg := m.v.StateDigest()
 	res := m.v.Run(&vestingtypes.MsgCreateVestingPool{Owner: m.spell("ownerSpelling", owner), Name: name, Amount: amt, Duration: time.Duration(dur), VestingType: vt})
 	m.note("createPool owner=%s name=%q amt=%s dur=%d vt=%s -> ok=%v", owner, name, amt, dur, vt, res.OK())
+	if res.OK() && (m.on["C05"] || m.on["C08"]) {
+		for _, p := range pre {
+			if p.Name == name {
+				m.fail("createPool accepted a second pool named %q for an owner who already has one (pools are addressed by name: sends from %q can no longer tell them apart)", name, name)
+			}
+		}
+	}
 	if res.OK() && m.on["C05"] {
 		post := m.snapPools(owner.String())
 		if len(post) != len(pre)+1 {
@@ -829,6 +840,26 @@ func (m *vestMachine) seedGenesisPools() {
 func (m *vestMachine) seedPools() {
 	t := m.t
 	n := rapid.IntRange(0, 6).Draw(t, "seedPools")
+	if rapid.IntRange(0, 11).Draw(t, "manyPools") == 0 {
+		// one world in twelve: an owner with dozens of pools (35-130; one time in four 256-300), most of them maturing within a minute
+		many := rapid.IntRange(35, 130).Draw(t, "manyPoolsN")
+		if rapid.IntRange(0, 3).Draw(t, "manyPoolsHundreds") == 0 {
+			many = rapid.IntRange(256, 300).Draw(t, "manyPoolsN2")
+		}
+		owner := KeyAcc(vestOwners[rapid.IntRange(0, 1).Draw(t, "manyPoolsOwner")]).Addr
+		vt := m.v.VTypes[rapid.IntRange(0, len(m.v.VTypes)-1).Draw(t, "manyPoolsVt")]
+		durs := []int64{1, secNs, secNs, 60 * secNs, dayNs}
+		for i := 0; i < many; i++ {
+			dur := durs[(i*7+many)%len(durs)]
+			res := m.v.App.CfevestingKeeper.CreateVestingPool(m.v.Ctx, owner.String(), fmt.Sprintf("m%d", i), sdk.NewInt(int64(1000+i)), time.Duration(dur), vt.Name)
+			if res != nil {
+				m.note("many pools: creation %d refused: %v", i, res)
+				break
+			}
+		}
+		m.manyPools = many
+		m.note("owner %s holds %d more pools m0..m%d (1000.. uc4e, durations 1ns/1s/1min/1d)", owner, many, many-1)
+	}
 	for i := 0; i < n; i++ {
 		l := fmt.Sprintf("seed%d", i)
 		owner := KeyAcc(vestOwners[rapid.IntRange(0, 3).Draw(t, l+"_owner")%2]).Addr
